@@ -8,6 +8,8 @@
 mod gen;
 mod wire;
 mod l0;
+mod scan;
+mod lex;
 
 fn main() {
     let args: Vec<String> = std::env::args().collect();
@@ -33,6 +35,8 @@ fn main() {
         "nav" => l0::nav(&mut out, &tier, &mut rng),
         "lines" => l0::lines(&mut out, &tier, &mut rng),
         "window" => l0::window(&mut out, &tier, &mut rng),
+        "lexiter" => lex::lexiter(&mut out, &tier, &mut rng),
+        "lexops" => lex::lexops(&mut out, &tier, &mut rng),
         _ => {
             eprintln!("unknown family {family}");
             std::process::exit(2);
@@ -51,7 +55,7 @@ fn replay() {
         let family = parts[0];
         // the last field is the recorded observation; everything between is input
         let fields = &parts[1..parts.len() - 1];
-        let obs = std::panic::catch_unwind(|| l0::replay(family, fields))
+        let obs = std::panic::catch_unwind(|| l0::replay(family, fields).or_else(|| lex::replay(family, fields)))
             .ok()
             .flatten()
             .unwrap_or_else(|| "unreplayable".to_string());
